@@ -66,7 +66,12 @@ class C17:
 
     # ------------------------------------------------------------------ harness
     def bin(self):
+        """harness binary compiled against the CURRENT vlib.REPO/include (content-hash cache)"""
         return vlib.build_harness('conv', 'conv.cpp')
+
+    def prebuild(self):
+        """compile the harness against vlib.REPO (called by tools/prebuild.py during setup)"""
+        self.bin()
 
     def gen_lines(self, ctx, n):
         raw = vlib.run_harness(self.bin(), [n], env={'VERIF_SEED': str(ctx['seed'])})
